@@ -80,6 +80,7 @@ def finish(pid, tier, results, wall, verbose=True):
     known = [k for k in load_json(KNOWN, {'findings': []})['findings'] if k['property'] == pid]
     locked = set(lock.get(pid, []))
     locked_bases = {_base(x) for x in locked}
+    locked_funcs = {x.split('/')[0] for x in locked}
     obligations, discharged = [], 0
     undecided, violations, errors, known_hits = [], [], [], []
     funcs = []
@@ -177,7 +178,10 @@ def finish(pid, tier, results, wall, verbose=True):
                 violations.append((ob, rpath, ''))
             elif ob['status'] == 'failed' and fr and fr.get('reproduced') is False and fr.get('conclusive'):
                 undecided.append((ob['name'], 'spurious-model: solver model does not reproduce on the real code'))
-            elif ob['name'] in locked or (_ORD.search(ob['name']) and _base(ob['name']) in locked_bases):
+            elif (ob['name'] in locked or (_ORD.search(ob['name']) and _base(ob['name']) in locked_bases)
+                  or (_ORD.search(ob['name']) and ob['name'].split('/')[0] in locked_funcs)):
+                # (a safety / pre-condition obligation at a new statement of a function whose obligations were all
+                # discharged on the unchanged tree is a regression of that function against its contract)
                 # (obligations named by a call-site / statement ordinal are matched modulo the ordinal: an
                 # edit elsewhere in the function renumbers them)
                 violations.append((ob, rpath, ' no-failing-input-found'))
